@@ -189,6 +189,14 @@ def _is_effect(n, alias_vars, edge_vars):
         return False
     if isinstance(a, ast.Expr) and isinstance(a.value, ast.Constant):
         return False
+    # naming a component of the edge (`src = edge[0]`, `u, v = edge[0], edge[1]`) before the type test decides nothing
+    if isinstance(a, ast.Assign) and len(a.targets) == 1 and \
+            all(isinstance(t, ast.Name) for t in (a.targets[0].elts if isinstance(a.targets[0], ast.Tuple)
+                                                 else [a.targets[0]])):
+        vals = a.value.elts if isinstance(a.value, ast.Tuple) else [a.value]
+        if all((isinstance(v, ast.Subscript) and isinstance(v.value, ast.Name) and v.value.id in edge_vars and
+                isinstance(v.slice, ast.Constant)) or (isinstance(v, ast.Name) and v.id in edge_vars) for v in vals):
+            return False
     return True
 
 
